@@ -12,3 +12,23 @@ func (s *BgpServer) VerifPassConn(c net.Conn) error {
 		return nil
 	}, true)
 }
+
+// VerifSetTreatAsWithdraw overrides the neighbour's error-handling setting (SetDefaultNeighborConfigValues forces
+// treat-as-withdraw on for every neighbour added through the API, so the unrevised mode is reachable only from a
+// configuration file); read by stateChange on the next transition to Established.
+func (s *BgpServer) VerifSetTreatAsWithdraw(addr string, v bool) error {
+	return s.mgmtOperation(func() error {
+		peers, err := s.addrToPeers(addr)
+		if err != nil {
+			return err
+		}
+		for _, p := range peers {
+			p.fsm.lock.Lock()
+			conf := p.fsm.pConf.ReadCopy()
+			conf.ErrorHandling.Config.TreatAsWithdraw = v
+			p.fsm.pConf.Update(&conf)
+			p.fsm.lock.Unlock()
+		}
+		return nil
+	}, true)
+}
